@@ -2,7 +2,10 @@
 
 package swap
 
-import "github.com/elementsproject/peerswap/zzverif"
+import (
+	"github.com/elementsproject/peerswap/messages"
+	"github.com/elementsproject/peerswap/zzverif"
+)
 
 // C06 tier A: one inductive step.  Ghost: w.payOut = "a claim payment has settled or may still be
 // outstanding".  Invariant: payOut => the taker is in a state from which it only claims with the
@@ -18,59 +21,65 @@ func vC06PaidState(role int, st StateType) bool {
 		st == State_SwapInReceiver_ClaimSwap || st == State_ClaimedPreimage
 }
 
-func vStepC06(role int, st StateType) {
-	sc := vBuild(role, st, zzverif.Bool("liquid"), 7)
+// vStepTaker: one arbitrary stimulus to a taker resting in st.  Obligations of several properties are
+// evaluated on the same exploration (labels carry the property id).
+// Bounds: protocol 7, at most one injected local service fault per step, at most two claim payment
+// attempts per step, chain height pinned to the swap's start height (window arithmetic: C04/C05 action
+// harnesses), id-reusing requests excluded (C09's subject).
+func vStepTaker(role int, st StateType) {
+	liquid := zzverif.Bool("liquid")
+	sc := vBuild(role, st, liquid, 7)
 	w := sc.env.w
-	w.maxFaults = 1 // bound: at most one injected local service fault per step
-	sc.vUsePaySummary()
+	w.maxFaults = 1
+	w.maxPayAttempts = 1 // bound: claim payment attempts per step (2 in the thorough tier)
+	if zzverif.Thorough() {
+		w.maxPayAttempts = 2
+	}
+	d := sc.sm.Data
+	w.narrow = d
+	// ---- pre-state (ghost) ----
 	w.payOut = zzverif.Bool("pre.payout")
 	zzverif.Assume(!w.payOut || vC06PaidState(role, st))
-	if w.payOut && st == sc.paidClaimState() {
-		// the payment settled and the action returned: the preimage is stored
-		zzverif.Assume(sc.sm.Data.ClaimPreimage != "")
+	anchor0, set0 := d.StartingBlockHeight, d.StartingBlockHeightSet
+	if liquid {
+		// C13 data invariant: a Liquid v7 taker that has revealed its pubkey has a stored anchor
+		zzverif.Assume(set0)
 	}
-	payOut0 := w.payOut
-	stim := zzverif.Choice("stim", nStimuli)
+	next0, nextType0 := d.NextMessage, d.NextMessageType
+	stim := stRestart
+	if vIsResting(st) {
+		stim = zzverif.Choice("stim", nStimuli)
+	}
 	if stim == stMsgRequest {
-		zzverif.Assume(false) // id-reusing requests are C09's subject (H_C09_*)
+		zzverif.Assume(false)
 	}
 	zzverif.Unwind(30)
 	sc.vApply(stim)
 	post := sc.vCurrent()
-	zzverif.Reach("c06.step_done")
+	pd := sc.sm.Data
+	zzverif.Reach("taker.step_done")
+	// ---- C06 ----
 	zzverif.Assert(sc.vCoopCloseSends() == 0 || !w.payOut, "C06.no_coop_close_while_payment_may_be_out")
 	zzverif.Assert(!w.payOut || vC06PaidState(role, post), "C06.invariant_paid_implies_claiming_state")
-	_ = payOut0
-}
-
-func (sc *vScenario) paidClaimState() StateType {
-	if sc.role == rOutSender {
-		return State_SwapOutSender_ClaimSwap
+	// ---- C13: the anchor never changes once set ----
+	if liquid {
+		zzverif.Assert(pd.StartingBlockHeightSet && pd.StartingBlockHeight == anchor0, "C13.anchor_immutable")
+		if rec, ok := sc.env.store.recs[sc.id]; ok {
+			zzverif.Assert(rec.Data.StartingBlockHeightSet && rec.Data.StartingBlockHeight == anchor0, "C13.stored_anchor_immutable")
+		}
 	}
-	return State_SwapInReceiver_ClaimSwap
+	// ---- C15 ----
+	zzverif.Assert(w.openings == 0, "C15.taker_never_broadcasts_opening")
+	if st == State_SwapCanceled || st == State_SendCancel || st == State_ClaimedCoop {
+		zzverif.Assert(len(w.pays) == 0 && len(w.feePays) == 0, "C15.no_payment_after_cancel")
+	}
+	if stim == stRestart && role == rInReceiver && st == State_SwapInReceiver_SendAgreement {
+		for i := range w.sends {
+			zzverif.Assert(string(w.sends[i].payload) == string(next0) && w.sends[i].msgType == nextType0 || w.sends[i].msgType != int(messages.MESSAGETYPE_SWAPINAGREEMENT), "C15.resent_agreement_is_persisted_message")
+		}
+	}
+	_ = nextType0
 }
-
-func H_C06_step_os_AwaitAgreement() { vStepC06(rOutSender, State_SwapOutSender_AwaitAgreement) }
-func H_C06_step_os_AwaitTxBroadcasted() {
-	vStepC06(rOutSender, State_SwapOutSender_AwaitTxBroadcastedMessage)
-}
-func H_C06_step_os_AwaitTxConfirmation() {
-	vStepC06(rOutSender, State_SwapOutSender_AwaitTxConfirmation)
-}
-func H_C06_step_os_ValidateTxAndPay() {
-	vStepC06(rOutSender, State_SwapOutSender_ValidateTxAndPayClaimInvoice)
-}
-func H_C06_step_os_ClaimSwap() { vStepC06(rOutSender, State_SwapOutSender_ClaimSwap) }
-func H_C06_step_ir_AwaitTxBroadcasted() {
-	vStepC06(rInReceiver, State_SwapInReceiver_AwaitTxBroadcastedMessage)
-}
-func H_C06_step_ir_AwaitTxConfirmation() {
-	vStepC06(rInReceiver, State_SwapInReceiver_AwaitTxConfirmation)
-}
-func H_C06_step_ir_ValidateTxAndPay() {
-	vStepC06(rInReceiver, State_SwapInReceiver_ValidateTxAndPayClaimInvoice)
-}
-func H_C06_step_ir_ClaimSwap() { vStepC06(rInReceiver, State_SwapInReceiver_ClaimSwap) }
 
 // H_C06_payActionContract: the real paying action stays inside the summary used by the history
 // harnesses: it returns ActionSucceeded or ActionFailed; on success a payment went out (payOut) and the
@@ -97,3 +106,54 @@ func H_C06_payActionContract() {
 	zzverif.Assert(ev == Event_ActionSucceeded || s.ClaimPreimage == pre.ClaimPreimage, "C06.payaction_failure_keeps_preimage")
 	zzverif.Assert(ev == Event_ActionFailed || (s.CancelMessage == cancel0 && s.LastErrString == pre.LastErrString), "C06.payaction_success_keeps_error_fields")
 }
+
+// zzverif:also C13 C15
+func H_C06_step_os_AwaitAgreement() { vStepTaker(rOutSender, State_SwapOutSender_AwaitAgreement) }
+
+// zzverif:also C13 C15
+func H_C06_step_os_AwaitTxBroadcasted() {
+	vStepTaker(rOutSender, State_SwapOutSender_AwaitTxBroadcastedMessage)
+}
+
+// zzverif:also C13 C15
+func H_C06_step_os_AwaitTxConfirmation() {
+	vStepTaker(rOutSender, State_SwapOutSender_AwaitTxConfirmation)
+}
+
+// zzverif:also C13 C15
+func H_C06_step_os_ValidateTxAndPay() {
+	vStepTaker(rOutSender, State_SwapOutSender_ValidateTxAndPayClaimInvoice)
+}
+
+// zzverif:also C13 C15
+func H_C06_step_os_ClaimSwap() { vStepTaker(rOutSender, State_SwapOutSender_ClaimSwap) }
+
+// zzverif:also C13 C15
+func H_C06_step_os_SendPrivkey() { vStepTaker(rOutSender, State_SwapOutSender_SendPrivkey) }
+
+// zzverif:also C13 C15
+func H_C06_step_os_SwapCanceled() { vStepTaker(rOutSender, State_SwapCanceled) }
+
+// zzverif:also C13 C15
+func H_C06_step_ir_SendAgreement() { vStepTaker(rInReceiver, State_SwapInReceiver_SendAgreement) }
+
+// zzverif:also C13 C15
+func H_C06_step_ir_AwaitTxBroadcasted() {
+	vStepTaker(rInReceiver, State_SwapInReceiver_AwaitTxBroadcastedMessage)
+}
+
+// zzverif:also C13 C15
+func H_C06_step_ir_AwaitTxConfirmation() {
+	vStepTaker(rInReceiver, State_SwapInReceiver_AwaitTxConfirmation)
+}
+
+// zzverif:also C13 C15
+func H_C06_step_ir_ValidateTxAndPay() {
+	vStepTaker(rInReceiver, State_SwapInReceiver_ValidateTxAndPayClaimInvoice)
+}
+
+// zzverif:also C13 C15
+func H_C06_step_ir_ClaimSwap() { vStepTaker(rInReceiver, State_SwapInReceiver_ClaimSwap) }
+
+// zzverif:also C13 C15
+func H_C06_step_ir_SendPrivkey() { vStepTaker(rInReceiver, State_SwapInReceiver_SendPrivkey) }
